@@ -17,4 +17,5 @@ Definition wf_case (c : case) : bool :=
             then forallb (fun i => digest_okb n (lookup t (i / (512 / n)))) (soln_indices n k soln)
             else true
        else true)
+  | Hd raw frag _ => is_bytes raw && (frag <? 2 ^ 32)
   end.
